@@ -18,6 +18,17 @@ EVID = os.path.join(VERIF, 'evidence')
 REPLAYS = os.path.join(VERIF, 'replays')
 
 CLAIMED = None  # filled from MANIFEST
+# bounded stand-ins: which kinds of failing case (vx/bounded.py `report(kind, ..)`) speak against which property
+BOUNDED_KINDS = {
+    'C09': {'is_num_backup', 'next_backup_num', 'relative_spellings', 'symlinked_destinations', 'next_backup_num_extreme', 'non_backup', 'parse_backup'},
+    'C15': {'parse_reflink'},
+    'C16': {'reject_reflink', 'reject_backup', 'reject_driver', 'parse_driver'},
+}
+BOUNDED_WHAT = {
+    'C09': 'libxcp::backup::{is_num_backup, next_backup_num, has_backup, get_backup_path} (string/regex/ReadDir code outside Verus) and the --backup value table (Backup::from_str)',
+    'C15': 'the --reflink value table (Reflink::from_str: string matching, outside Verus)',
+    'C16': 'rejection of unknown --reflink/--backup/--driver values and the --driver table (FromStr impls: string matching, outside Verus)',
+}
 
 
 def props_claimed():
@@ -286,15 +297,18 @@ def check_property(pid, tier, seed, shared=None):
 
     # bounded stand-ins on the real code (labelled bounded, never counted in obligations/discharged)
     bounded_viol = None
-    if pid == 'C09':
+    if pid in BOUNDED_KINDS:
         from . import bounded
-        b = bounded.backup_bounded()
-        ev['coverage']['bounded'] = {'what': 'libxcp::backup::{is_num_backup, next_backup_num, has_backup, get_backup_path} (string/regex/ReadDir code outside Verus)',
-                                     'label': 'bounded - exhaustive over the stated finite space only, not a proof', **{k: b[k] for k in ('ok', 'cases', 'bound', 'failures', 'wall_s')}}
+        b = dict(bounded.backup_bounded())
+        # the failures that belong to this property (one enumeration serves C09, C15 and C16)
+        b['failures'] = [f for f in b['failures'] if f.split(' ::')[0].strip() in BOUNDED_KINDS[pid]]
+        ev['coverage']['bounded'] = {'what': BOUNDED_WHAT[pid],
+                                     'label': 'bounded - exhaustive over the stated finite space only, not a proof', 'ok': not b['failures'],
+                                     **{k: b[k] for k in ('cases', 'bound', 'failures', 'wall_s')}}
         if not b['built']:
-            print('UNDECIDED: bounded check of backup.rs did not build/run: %s' % b['tail'][-300:])
+            print('UNDECIDED: bounded check (backup.rs / option values) did not build/run: %s' % b['tail'][-300:])
             return 2
-        if not b['ok']:
+        if b['failures']:
             bounded_viol = b
             ev['violations'] = ev.get('violations', 0) + 1
         with open(os.path.join(EVID, pid + '.json'), 'w') as f:
@@ -304,11 +318,11 @@ def check_property(pid, tier, seed, shared=None):
         print('KNOWN-FINDING: property=%s obligation=%s %s' % (pid, oid, k.get('what', '')))
     if bounded_viol:
         os.makedirs(REPLAYS, exist_ok=True)
-        rp = os.path.join(REPLAYS, '%s-bounded_backup.json' % pid)
+        rp = os.path.join(REPLAYS, '%s-bounded.json' % pid)
         with open(rp, 'w') as f:
-            json.dump({'property': pid, 'obligation': 'bounded:libxcp::backup (numbered backup recognition / next number)', 'kind': 'bounded',
-                       'clause': 'for every name and set of existing backup numbers in the stated space: backups are recognised, the next number exceeds every existing one, the chosen backup path does not exist',
-                       'contract': 'vx/bounded.py', 'function': 'libxcp::backup', 'repo_source': 'libxcp/src/backup.rs',
+            json.dump({'property': pid, 'obligation': 'bounded:' + BOUNDED_WHAT[pid], 'kind': 'bounded', 'kinds': sorted(BOUNDED_KINDS[pid]),
+                       'clause': 'for every case of the stated finite space: backups are recognised, the next number exceeds every existing one, the chosen backup path does not exist; every spelling of an option value means its variant and everything else is rejected',
+                       'contract': 'vx/bounded.py', 'function': 'libxcp::backup / libxcp::config / libxcp::drivers', 'repo_source': 'libxcp/src/backup.rs, libxcp/src/config.rs, libxcp/src/drivers/mod.rs',
                        'verifier': 'native enumeration on the real code (cargo test on a scratch copy)', 'verifier_output': [],
                        'counterexample': {'failing_inputs': bounded_viol['failures']}, 'how_to_replay': './check replay %s' % rp}, f, indent=1)
         print('VIOLATION property=%s replay=%s' % (pid, rp))
@@ -424,8 +438,10 @@ def cmd_replay(args):
         print('counterexample (failing inputs at the time):', json.dumps(r['counterexample'], indent=1))
         from . import bounded
         b = bounded.backup_bounded()
-        print('re-run on the current tree:', 'no failing input' if b['ok'] else json.dumps(b['failures'], indent=1))
-        return 0 if b['ok'] else 1
+        kinds = set(r.get('kinds') or BOUNDED_KINDS.get(r.get('property'), ()))
+        fl = [f for f in b['failures'] if not kinds or f.split(' ::')[0].strip() in kinds]
+        print('re-run on the current tree:', 'no failing input' if not fl else json.dumps(fl, indent=1))
+        return 0 if not fl else 1
     if r.get('counterexample'):
         print('counterexample:', json.dumps(r['counterexample'], indent=1))
         from . import search
